@@ -23,6 +23,7 @@ from Bio.SeqRecord import SeqRecord
 from gffutils.feature import Feature
 from gffutils.interface import FeatureDB
 from inscripta.biocantor.gene import CDSInterval, CDSPhase, Biotype
+from inscripta.biocantor.gene.biotype import UNKNOWN_BIOTYPE
 from inscripta.biocantor.location import CompoundInterval
 from inscripta.biocantor.io.exc import DuplicateSequenceException, InvalidInputError
 from inscripta.biocantor.io.gff3.constants import (
@@ -203,16 +204,23 @@ def _parse_genes(chrom: str, db: FeatureDB) -> List[Dict]:
             transcript_qualifiers = {
                 x: y for x, y in transcript.attributes.items() if not BioCantorGFF3ReservedQualifiers.has_value(x)
             }
-            provided_transcript_biotype = gene_or_feature.attributes.get(
-                "transcript_biotype", [gene_or_feature.attributes.get("transcript_type", None)]
+            # the transcript row takes precedence over the gene row
+            provided_transcript_biotype = transcript.attributes.get(
+                "transcript_biotype",
+                gene_or_feature.attributes.get(
+                    "transcript_biotype", [gene_or_feature.attributes.get("transcript_type", None)]
+                ),
             )[0]
+            # this is how a transcript without a biotype is exported
+            if provided_transcript_biotype == UNKNOWN_BIOTYPE:
+                provided_transcript_biotype = None
 
             if Biotype.has_name(provided_transcript_biotype):
                 transcript_biotype = Biotype[provided_transcript_biotype]
             else:
                 # keep track of what they gave us, that did not match the enum
                 if provided_transcript_biotype:
-                    transcript_qualifiers["provided_transcript_biotype"] = provided_transcript_biotype
+                    transcript_qualifiers["provided_transcript_biotype"] = [provided_transcript_biotype]
                 # use the gene biotype
                 transcript_biotype = gene_biotype
 
